@@ -188,3 +188,120 @@ impl NodePersistence for RecStore {
         Ok(MapCon { entries, pos: 0 })
     }
 }
+
+
+// ------------------------------------------------------------------------------------------
+// the same recorder in front of the real in-memory store of swimos_server_app
+// ------------------------------------------------------------------------------------------
+
+use swimos_server_app::verif_hooks::InMemoryPlanePersistence;
+use swimos_api::persistence::PlanePersistence;
+
+pub type MemNode = <InMemoryPlanePersistence as PlanePersistence>::Node;
+
+/// Records every call (and keeps the reference state in the log, as `RecStore` does) but the data
+/// lives in the real `InMemoryNodePersistence`: what a restarted agent reads back is what that
+/// store kept across the drop of one instance and the acquisition of the next.
+pub struct RecOverMem {
+    pub rec: RecStore,
+    pub inner: MemNode,
+}
+
+impl NodePersistence for RecOverMem {
+    type MapCon<'a> = <MemNode as NodePersistence>::MapCon<'a> where Self: 'a;
+    type LaneId = u64;
+
+    fn id_for(&self, name: &str) -> Result<u64, StoreError> {
+        let id = self.inner.id_for(name)?;
+        self.rec.log.state.lock().ids.insert(name.to_string(), id);
+        self.rec.record(StoreCall::IdFor(name.to_string(), id));
+        Ok(id)
+    }
+
+    fn get_value(&self, id: u64, buffer: &mut BytesMut) -> Result<Option<usize>, StoreError> {
+        let before = buffer.len();
+        let r = self.inner.get_value(id, buffer)?;
+        self.rec.record(StoreCall::GetValue(id, r.map(|_| buffer[before..].to_vec())));
+        Ok(r)
+    }
+
+    fn put_value(&mut self, id: u64, value: &[u8]) -> Result<(), StoreError> {
+        let kill = self.rec.gate()?;
+        self.inner.put_value(id, value)?;
+        self.rec.log.state.lock().values.insert(id, value.to_vec());
+        self.rec.record(StoreCall::Put(id, value.to_vec()));
+        if kill {
+            panic!("{}", KILL_MSG);
+        }
+        Ok(())
+    }
+
+    fn delete_value(&mut self, id: u64) -> Result<(), StoreError> {
+        let kill = self.rec.gate()?;
+        self.inner.delete_value(id)?;
+        self.rec.log.state.lock().values.remove(&id);
+        self.rec.record(StoreCall::Delete(id));
+        if kill {
+            panic!("{}", KILL_MSG);
+        }
+        Ok(())
+    }
+
+    fn update_map(&mut self, id: u64, key: &[u8], value: &[u8]) -> Result<(), StoreError> {
+        let kill = self.rec.gate()?;
+        self.inner.update_map(id, key, value)?;
+        self.rec.log.state.lock().maps.entry(id).or_default().insert(key.to_vec(), value.to_vec());
+        self.rec.record(StoreCall::Update(id, key.to_vec(), value.to_vec()));
+        if kill {
+            panic!("{}", KILL_MSG);
+        }
+        Ok(())
+    }
+
+    fn remove_map(&mut self, id: u64, key: &[u8]) -> Result<(), StoreError> {
+        let kill = self.rec.gate()?;
+        self.inner.remove_map(id, key)?;
+        if let Some(m) = self.rec.log.state.lock().maps.get_mut(&id) {
+            m.remove(key);
+        }
+        self.rec.record(StoreCall::Remove(id, key.to_vec()));
+        if kill {
+            panic!("{}", KILL_MSG);
+        }
+        Ok(())
+    }
+
+    fn clear_map(&mut self, id: u64) -> Result<(), StoreError> {
+        let kill = self.rec.gate()?;
+        self.inner.clear_map(id)?;
+        self.rec.log.state.lock().maps.remove(&id);
+        self.rec.record(StoreCall::Clear(id));
+        if kill {
+            panic!("{}", KILL_MSG);
+        }
+        Ok(())
+    }
+
+    fn read_map(&self, id: u64) -> Result<Self::MapCon<'_>, StoreError> {
+        let n = self.rec.log.state.lock().maps.get(&id).map(|m| m.len()).unwrap_or(0);
+        self.rec.record(StoreCall::ReadMap(id, n));
+        self.inner.read_map(id)
+    }
+}
+
+/// Acquire the node store of `uri` from the plane; `None` if the request is still pending (the
+/// previous instance's store has not been dropped).
+pub fn acquire(plane: &InMemoryPlanePersistence, uri: &str) -> Option<Result<MemNode, StoreError>> {
+    use futures::FutureExt;
+    plane.node_store(uri).now_or_never()
+}
+
+/// What the server does for every routing request that finds the agent already running: ask the
+/// plane for the node store and drop the request unused.
+pub fn abandoned_request(plane: &InMemoryPlanePersistence, uri: &str) {
+    let mut fut = plane.node_store(uri);
+    let w = futures::task::noop_waker();
+    let mut cx = std::task::Context::from_waker(&w);
+    let _ = std::future::Future::poll(fut.as_mut(), &mut cx);
+    drop(fut);
+}
